@@ -113,7 +113,7 @@ class P(Prop):
                 "skipping, field extraction, no-data rule; read_all not modelled), ObsTime.__str__/__precompileReadFmt/readTimestamp/__fillMember "
                 "(tokenised format, no '*' wildcard), NetworkWriter.writeToCsv, NetworkReader.readFromFile + readLineAndAddToNetwork + "
                 "wktLineStringToObs + Network.addNode order, Track.toWKT, TrackReader.parseWkt (LINESTRING), TrackWriter.writeToGpx body, "
-                "TrackReader.__readFromGpx (type trk)")
+                "TrackReader.__readFromGpx (type trk, as per-tag steps gpxPt/gpxEndPt/gpxEle/gpxTime); the header block of writeToFile is modelled behind hdrEff (never emitted on this tree)")
     trusted = ["Python's format()/repr()/float()/int() on the decimal lattice are modelled by an own decimal printer/parser; the rounding done by format() on "
                "off-lattice floats is computed by the harness with exact rational arithmetic and handed to the model",
                "csv.reader is modelled as its documented state machine (delimiter, doublequote); file system calls are trusted"]
